@@ -152,9 +152,15 @@ RunClauses(M, sc, v, runs, order) ==
 (* ---- arrays: Field.diff along axis d of an array over cell counts n ---------------- *)
 (* arr: flat array of component sequences, valid: flat BOOLEAN array; result numerators *)
 DiffArr(n, arr, valid, d, order, pbc, r2v) ==
-   LET nv == Len(arr[1]) IN
-   MkArr(n, LAMBDA i :
-      LET vl == Line(n, valid, i, d) IN
-      [c \in 1 .. nv |->
-          DiffLine([j \in 1 .. n[d] |-> Line(n, arr, i, d)[j][c]], vl, order, pbc, r2v)[i[d] + 1]])
+   LET nv     == Len(arr[1])
+       L      == n[d]
+       stride == ProdSeq([e \in 1 .. (d - 1) |-> n[e]])       \* flat distance of neighbours along d
+       pos(k)  == ((k - 1) \div stride) % L                    \* index along d of flat position k
+       base(k) == k - pos(k) * stride                          \* first cell of the grid line through k
+       bases  == {k \in DOMAIN arr : pos(k) = 0}
+       (* every grid line and component is differentiated once, on its own *)
+       res    == [b \in bases |->
+                    LET vl == [j \in 1 .. L |-> valid[b + (j - 1) * stride]] IN
+                    [c \in 1 .. nv |-> DiffLine([j \in 1 .. L |-> arr[b + (j - 1) * stride][c]], vl, order, pbc, r2v)]]
+   IN [k \in DOMAIN arr |-> [c \in 1 .. nv |-> res[base(k)][c][pos(k) + 1]]]
 =============================================================================
